@@ -569,6 +569,41 @@ func runStreamScenario(seed int64, viaGrpc bool) (*streamResult, error) {
 		}
 		return nil
 	}
+	// what became of the ids the client settled on the stream / outside it
+	var ackedIDs, nackedIDs []uuid.UUID
+	// a nacked message that is sent again and then acked is legitimately completed
+	forgetNacks := func(ids []uuid.UUID) {
+		drop := map[uuid.UUID]bool{}
+		for _, id := range ids {
+			drop[id] = true
+		}
+		var keep []uuid.UUID
+		for _, id := range nackedIDs {
+			if !drop[id] {
+				keep = append(keep, id)
+			}
+		}
+		nackedIDs = keep
+	}
+	checkSettled := func() error {
+		d, err := e.dumpR(ctx)
+		if err != nil {
+			return err
+		}
+		for _, id := range ackedIDs {
+			if x := d.del(id); x != nil && x.Completed == nil {
+				cl.viol = append(cl.viol, fmt.Sprintf("ack-not-completed: ack id %s was acknowledged by the client and its delivery is still unacknowledged in the database", id))
+				break
+			}
+		}
+		for _, id := range nackedIDs {
+			if x := d.del(id); x != nil && x.Completed != nil {
+				cl.viol = append(cl.viol, fmt.Sprintf("nack-completed: ack id %s was nacked on the stream and its delivery is now marked acknowledged (it will never be offered again)", id))
+				break
+			}
+		}
+		return nil
+	}
 	quiesce()
 	if err := checkFlow("stream start"); err != nil {
 		return nil, err
@@ -576,6 +611,9 @@ func runStreamScenario(seed int64, viaGrpc bool) (*streamResult, error) {
 	steps := 8 + r.Intn(6)
 	for i := 0; i < steps; i++ {
 		quiesce()
+		if err := checkSettled(); err != nil {
+			return nil, err
+		}
 		held, _ := cl.outstanding()
 		pick := func() []uuid.UUID {
 			if len(held) == 0 {
@@ -589,6 +627,8 @@ func runStreamScenario(seed int64, viaGrpc bool) (*streamResult, error) {
 		case x < 3 && len(held) > 0: // ack on the stream
 			ids := pick()
 			cl.note("stream ack %d", len(ids))
+			ackedIDs = append(ackedIDs, ids...)
+			forgetNacks(ids)
 			cl.settle(ids)
 			if err := link.ack(ids); err != nil {
 				return nil, err
@@ -601,6 +641,7 @@ func runStreamScenario(seed int64, viaGrpc bool) (*streamResult, error) {
 			ids := pick()
 			asDelay := r.Intn(2) == 0
 			cl.note("stream nack %d (as zero deadline: %v)", len(ids), asDelay || viaGrpc)
+			nackedIDs = append(nackedIDs, ids...)
 			cl.settle(ids)
 			if err := link.nack(ids, asDelay); err != nil {
 				return nil, err
@@ -612,6 +653,8 @@ func runStreamScenario(seed int64, viaGrpc bool) (*streamResult, error) {
 		case x < 7 && len(held) > 0: // Acknowledge outside the stream
 			ids := pick()
 			cl.note("external ack %d", len(ids))
+			ackedIDs = append(ackedIDs, ids...)
+			forgetNacks(ids)
 			var ss []string
 			for _, id := range ids {
 				ss = append(ss, id.String())
@@ -648,12 +691,105 @@ func runStreamScenario(seed int64, viaGrpc bool) (*streamResult, error) {
 		}
 	}
 	quiesce()
+	// a nacked message that was sent again and then acked is legitimately completed: only ids
+	// never acked afterwards count
+	acked := map[uuid.UUID]bool{}
+	for _, id := range ackedIDs {
+		acked[id] = true
+	}
+	var onlyNacked []uuid.UUID
+	for _, id := range nackedIDs {
+		if !acked[id] {
+			onlyNacked = append(onlyNacked, id)
+		}
+	}
+	nackedIDs = onlyNacked
+	if err := checkSettled(); err != nil {
+		return nil, err
+	}
 	cl.mu.Lock()
 	res.Sends = len(cl.sends)
 	res.Violations = append(res.Violations, cl.viol...)
 	res.Events = cl.events
 	cl.mu.Unlock()
 	res.WallMS = time.Since(start).Milliseconds()
+	return res, nil
+}
+
+// runCrossStreamAck: a message delivered on one stream, that stream torn down, and the ack
+// sent on a second stream of the same subscription (a reconnecting client): the ack must
+// take effect like any other
+func runCrossStreamAck() (*streamResult, error) {
+	ctx := context.Background()
+	e, err := NewEnv(true)
+	if err != nil {
+		return nil, err
+	}
+	defer e.Close()
+	res := &streamResult{Scenario: "cross-stream-ack", MaxM: 10, MaxB: 100000}
+	topic, subName := "projects/p/topics/x", "projects/p/subscriptions/x"
+	pre, _ := e.dumpR(ctx)
+	e.Exec(ctx, &Op{Kind: "CreateTopic", Name: topic}, pre)
+	mn, mx := 60*time.Second, 120*time.Second
+	e.Exec(ctx, &Op{Kind: "CreateSub", Sub: &SubReq{Name: subName, Topic: topic, Retry: &[2]*time.Duration{&mn, &mx}}}, pre)
+	for i := 0; i < 3; i++ {
+		d, _ := e.dumpR(ctx)
+		if o, err := e.Exec(ctx, &Op{Kind: "Publish", Name: topic, Msgs: []PubMsg{{Data: sizedPayload(10)}}}, d); err != nil || o.Resp.Kind != "ids" {
+			return nil, fmt.Errorf("publish: %v", err)
+		}
+	}
+	d0, _ := e.dumpR(ctx)
+	sub := d0.subByName(subName)
+	open := func(cl *streamClient) (*directLink, error) {
+		conn := &scriptConn{in: make(chan *actions.MessageStreamRequest), closed: make(chan struct{}), cl: cl}
+		sctx, cancel := context.WithCancel(ctx)
+		ms := &actions.MessageStreamer{Client: e.Client, SubscriptionID: &sub.ID, SubscriptionName: subName, AutomaticNack: true}
+		done := make(chan error, 1)
+		go func() { done <- ms.Go(sctx, conn) }()
+		dl := &directLink{conn, cancel, done}
+		return dl, dl.flow(10, 100000)
+	}
+	clA := &streamClient{out: map[uuid.UUID]int{}, maxM: 10, maxB: 100000}
+	a, err := open(clA)
+	if err != nil {
+		return nil, err
+	}
+	deadline := time.Now().Add(3 * time.Second)
+	for clA.nsends() < 3 && time.Now().Before(deadline) {
+		time.Sleep(10 * time.Millisecond)
+	}
+	held, _ := clA.outstanding()
+	a.close()
+	time.Sleep(100 * time.Millisecond)
+	if len(held) == 0 {
+		return nil, fmt.Errorf("cross-stream-ack: nothing was delivered on the first stream")
+	}
+	clB := &streamClient{out: map[uuid.UUID]int{}, maxM: 10, maxB: 100000}
+	b, err := open(clB)
+	if err != nil {
+		return nil, err
+	}
+	defer b.close()
+	clB.note("ack on the second stream %d ids delivered on the first", len(held))
+	if err := b.ack(held[:len(held)-1]); err != nil {
+		return nil, err
+	}
+	if err := b.nack(held[len(held)-1:], true); err != nil {
+		return nil, err
+	}
+	time.Sleep(300 * time.Millisecond)
+	d, _ := e.dumpR(ctx)
+	for _, id := range held[:len(held)-1] {
+		if x := d.del(id); x == nil || x.Completed == nil {
+			res.Violations = append(res.Violations, fmt.Sprintf("ack-not-completed: ack id %s, delivered on one stream and acknowledged on another stream of the same subscription, is still unacknowledged", id))
+			break
+		}
+	}
+	if x := d.del(held[len(held)-1]); x != nil && x.Completed != nil {
+		res.Violations = append(res.Violations, fmt.Sprintf("nack-completed: ack id %s, nacked on a second stream, is marked acknowledged", held[len(held)-1]))
+	}
+	res.Events = append(clA.events, clB.events...)
+	res.Sends = clA.nsends() + clB.nsends()
 	return res, nil
 }
 
@@ -936,6 +1072,13 @@ func cmdStream(args []string) error {
 	holRes, err := runHOL()
 	if err != nil {
 		return fmt.Errorf("head-of-line probe: %w", err)
+	}
+	if xr, err := runCrossStreamAck(); err != nil {
+		return err
+	} else {
+		results = append(results, xr)
+		tot["sends"] += xr.Sends
+		tot["violations"] += len(xr.Violations)
 	}
 	for _, k := range []string{"nack-refetch", "refresh-race"} {
 		fr, err := runForced(k)
